@@ -49,9 +49,30 @@ pub fn check_map_invariants(sm: &SourceMap, queries: &[(u32, u32)], tag: &str) -
         if let Some(w) = pos.windows(2).position(|w| w[0] > w[1]) {
             return Some((format!("order/not-sorted/{tag}"), format!("tokens() positions decrease at index {w}: {:?} then {:?}; all positions: {pos:?}", pos[w], pos[w + 1])));
         }
+        // the iterator's other ways of advancing agree with get_token
+        for k in [0usize, 1, 2, n / 2, n.saturating_sub(1), n] {
+            let want = toks.get(k).copied();
+            if sm.tokens().nth(k).map(|t| t.get_raw_token()) != want || sm.tokens().skip(k).next().map(|t| t.get_raw_token()) != want {
+                return Some(("order/nth-vs-get_token".into(), format!("tokens().nth({k}) / skip({k}).next() differ from get_token({k}) = {want:?}")));
+            }
+            let mut it = sm.tokens();
+            let _ = it.nth(k);
+            let after = it.next().map(|t| t.get_raw_token());
+            if after != toks.get(k + 1).copied() {
+                return Some(("order/next-after-nth".into(), format!("after tokens().nth({k}) the next token is {after:?}, get_token({}) = {:?}", k + 1, toks.get(k + 1))));
+            }
+        }
         for &q in queries {
             let exp = rlookup(&pos, q);
-            let got = sm.lookup_token(q.0, q.1).map(|t| t.get_raw_token());
+            let found = sm.lookup_token(q.0, q.1);
+            // the generated position a looked-up token reports is its own, wherever the query was
+            if let Some(t) = &found {
+                let r = t.get_raw_token();
+                if (t.get_dst_line(), t.get_dst_col()) != (r.dst_line, r.dst_col) || t.get_dst() != (r.dst_line, r.dst_col) {
+                    return Some(("lookup/reported-position".into(), format!("lookup_token{q:?} returned the token stored at ({}, {}) but it reports ({}, {}) / {:?}", r.dst_line, r.dst_col, t.get_dst_line(), t.get_dst_col(), t.get_dst())));
+                }
+            }
+            let got = found.map(|t| t.get_raw_token());
             match (exp, got) {
                 (None, None) => {}
                 (Some(i), Some(g)) => {
@@ -87,7 +108,7 @@ fn build_e1(c: &E1Case) -> SourceMap {
     match c.how {
         1 => SourceMap::new(
             None,
-            c.positions.iter().enumerate().map(|(i, p)| RawToken { dst_line: p.0, dst_col: p.1, src_line: i as u32, src_col: 100 + i as u32, src_id: 0, name_id: !0, is_range: false }).collect(),
+            c.positions.iter().enumerate().map(|(i, p)| RawToken { dst_line: p.0, dst_col: p.1, src_line: i as u32, src_col: 100 + i as u32, src_id: 0, name_id: !0, is_range: i % 3 == 2 }).collect(),
             vec![],
             vec!["s".into()],
             None,
@@ -97,9 +118,9 @@ fn build_e1(c: &E1Case) -> SourceMap {
             b.add_source("s");
             for (i, p) in c.positions.iter().enumerate() {
                 if h == 0 {
-                    b.add(p.0, p.1, i as u32, 100 + i as u32, Some("s"), None, false);
+                    b.add(p.0, p.1, i as u32, 100 + i as u32, Some("s"), None, i % 3 == 2);
                 } else {
-                    b.add_raw(p.0, p.1, i as u32, 100 + i as u32, Some(0), None, false);
+                    b.add_raw(p.0, p.1, i as u32, 100 + i as u32, Some(0), None, i % 3 == 2);
                 }
             }
             b.into_sourcemap()
